@@ -101,6 +101,7 @@ class Producer(object):
 
     _sendLooper = None
     _sendLooperD = None
+    stopping = False
 
     def __init__(
         self,
@@ -445,7 +446,7 @@ class Producer(object):
         # We can be triggered by the LoopingCall, and have nothing to send...
         # Or, we've got SendRequest(s) to send, but are still processing the
         # previous batch...
-        if (not self._batch_reqs) or self._batch_send_d:
+        if (not self._batch_reqs) or self._batch_send_d or self.stopping:
             return
 
         # Save a local copy, and clear the global list & metrics
